@@ -552,3 +552,89 @@ def _const_ratio(a, b):
     except Unsupported:
         return None
     return q.const_value()
+
+
+def istep_scales(A, ctx=None, rule=None):
+    """{datafit class: c} with intercept_update_step == c * intercept gradient (None if
+    not a constant positive multiple)"""
+    out = {}
+    for cls in A.prog.datafits:
+        dm = DatafitModel(A, cls)
+        if not dm.has("intercept_update_step") or not dm.has("value"):
+            continue
+        i = dm.inp
+        err = {}
+        ix = ("t0",) if dm.multitask else ()
+        st = _attempt(err, "istep", lambda: _scalar_at(dm.run("intercept_update_step", "dense", [i["y"], i["Xw"]]), *ix))
+        val = _attempt(err, "value", lambda: as_rf(dm.run("value", "dense", [i["y"], i["w"], i["Xw"]])))
+        if st is None or val is None:
+            out[cls] = ("undecided", str(err))
+            continue
+        wrt = ("el", "Xw", ("i~s", "t0") if dm.multitask else ("i~s",))
+        dv = _attempt(err, "dv", lambda: derivative(val, wrt))
+        if dv is None:
+            out[cls] = ("undecided", str(err))
+            continue
+        tot = summation("N", "i~s", dv)
+        q = _const_ratio(st, tot)
+        out[cls] = q
+    return out
+
+
+def r_cert_scale(A, ctx, scope, rule="R-CERT-SCALE"):
+    """R-CERT(iii): the intercept term of a solver's stopping value is sound in scale for
+    every datafit the solver accepts."""
+    from .matrix import Validator, Refuse, knob_space
+    from .control import _slot_call
+    import itertools
+    ctx.rule(rule, "scale of the intercept term in the certificate: where a solver measures "
+             "intercept optimality by |datafit.intercept_update_step(y, Xw)|, for every datafit "
+             "that passes that solver's validation the step is c * (intercept gradient) with a "
+             "constant c >= 1 (c < 1 certifies an intercept whose gradient is tol / c); terms "
+             "built from sum(raw_grad) have c = 1 by R-DERIV")
+    scales = istep_scales(A)
+    V = Validator(A)
+    n = 0
+    for sname, sf in sorted(A.facts.items()):
+        if sf.loop is None or sname in scope.get("exempt", ()):
+            continue
+        f, cfg, flow = sf.f, sf.cfg, A.flow
+        uses = False
+        for test_id, brk_id, cmp in sf.tol_exits:
+            stop = sf.stop_name_in(cmp)
+            for d in cfg.backward_slice(test_id, [stop]):
+                a = cfg.nodes[d].ast
+                if a is not None and hasattr(a, "value") and a.value is not None:
+                    for c in ast.walk(a.value):
+                        if _slot_call(flow, f, c, "DATAFIT", {"intercept_update_step"}):
+                            uses = True
+        if not uses:
+            continue
+        for D in A.prog.datafits:
+            if D not in scales:
+                continue
+            accepted = False
+            for P in A.prog.penalties:
+                cell = dict(sparse=False, knobs={k: v[0] for k, v in knob_space(sf).items()}, datafit=D, penalty=P)
+                cell["knobs"]["fit_intercept"] = True
+                try:
+                    V.validate(sf.cls, cell)
+                    accepted = True
+                    break
+                except Refuse:
+                    continue
+            if not accepted:
+                continue
+            n += 1
+            c = scales[D]
+            if isinstance(c, tuple):
+                ctx.ob(rule, f"{sf.f.fq}::{D.name}", None, detail=f"intercept step of {D.name} not lifted: {c[1][:100]}")
+                continue
+            ok = c is not None and c >= 1
+            m = D.find_method("intercept_update_step")
+            ctx.ob(rule, f"{sf.f.fq}::{D.name}", ok, detail=f"c = {c}",
+                   what=f"{sname} tests |{D.name}.intercept_update_step| <= tol, and that step is "
+                        f"{c} x the intercept gradient: the returned intercept is certified while "
+                        f"its gradient can be {('1/' + str(c)) if c else '?'} x tol",
+                   loc=loc(m, m.node))
+    ctx.floor(rule, n, scope.get("floor", 3))
